@@ -794,5 +794,18 @@ def sessions(txs):
         ("p2sh-multisig", ["--tx=" + txs["p2sh-multisig-2-of-2"][0], "--txin=" + txs["p2sh-multisig-2-of-2"][1]]),
         ("p2tr", ["--tx=" + txs["p2tr"][0], "--txin=" + txs["p2tr"][1]]),
         ("p2ts", ["--tx=" + txs["p2ts"][0], "--txin=" + txs["p2ts"][1]]),
+        # added after a second round of independently seeded changes pointed at shapes the first six sessions lack:
+        ("p2sh-p2wpkh", ["--tx=" + txs["p2sh-p2wpkh"][0], "--txin=" + txs["p2sh-p2wpkh"][1]]),                     # segwit v0 under the default flags
+        ("p2sh-shape-nostack", ["[OP_HASH160 0xb472a266d0bd89c13706a4132ccfb16f7c3b9fcb OP_EQUAL]"]),            # P2SH-shaped script, empty stack (hash160 of the empty string)
+        ("noconst", ["-f-CONST_SCRIPTCODE", "[OP_1 OP_DROP OP_2]"]),                                                 # OP_CODESEPARATOR allowed in legacy scripts
+        ("push520", ["0x4d0802" + "ab" * 520 + "75"]),                                                             # a 520-byte push in the listing
     ]
     return S
+
+
+def exec_pair_lines():
+    """every exec operation alone, and every ordered pair of exec operations given on ONE exec line"""
+    return ["exec " + a for a in EXEC_OPS] + ["exec %s %s" % (a, b) for a in EXEC_OPS for b in EXEC_OPS] + ["exec OP_CODESEPARATOR 0 0 OP_CHECKSIG", "exec OP_CODESEPARATOR OP_RETURN", "exec 0x51"]
+
+
+EXEC_PAIR_PATTERNS = [["{x}"], ["{x}", "step", "step", "step", "step"], ["step", "{x}", "step", "step", "step", "step", "step"]]
